@@ -39,9 +39,10 @@ ExpRow(key, r) ==
 \* the values of a column that was read: typed columns carry ranks, dictionary columns ordinals + dictionary
 ValsOf(c) == IF Has(c, "dict") THEN [i \in 1..Len(c.ords) |-> IF c.ords[i] < Len(c.dict) THEN c.dict[c.ords[i] + 1] ELSE -3] ELSE c.flat
 
+\* a range is given by the places of its bounds in the certificate: values with rank in lo .. hiu - 1 are inside
 RangeOk(c, vals, rg) ==
   /\ StrictlyIncreasing(rg.rows)
-  /\ SeqSet(rg.rows) = {r - 1 : r \in {x \in 1..c.nrows : \E i \in (c.off[x] + 1)..c.off[x + 1] : rg.lo <= vals[i] /\ vals[i] <= rg.hi}}
+  /\ SeqSet(rg.rows) = {r - 1 : r \in {x \in 1..c.nrows : \E i \in (c.off[x] + 1)..c.off[x + 1] : rg.lo <= vals[i] /\ vals[i] < rg.hiu}}
 
 SrcTables == IF Ident THEN {Ev.t} ELSE {Ev.rows[r][1] : r \in 1..Len(Ev.rows)}
 \* classes of the numerical values recorded under this key in the tables this columnar comes from
@@ -78,6 +79,15 @@ TRead ==
      ELSE {r \in 1..Ev.nrows : {k \in DOMAIN tables[Src(r)[1]].cols : k \notin keys /\ ExpRow(k, r) # <<>>} # {}} = {}
   \* one column per key
   /\ Cardinality({Ev.cols[i].key : i \in 1..Len(Ev.cols)}) = Len(Ev.cols)
+  \* RangeQuery on a fast field returns the rows holding a value in the range
+  /\ (Has(Ev, "queries") =>
+        {j \in 1..Len(Ev.queries) :
+           LET q == Ev.queries[j]
+               cs == {i \in 1..Len(Ev.cols) : Ev.cols[i].key = q.key}
+           IN IF Has(q, "error") \/ Has(q, "panic") THEN TRUE
+              ELSE IF cs = {} THEN q.rows # <<>>
+              ELSE LET c == Ev.cols[CHOOSE i \in cs : TRUE] IN
+                   IF Has(c, "flat") THEN ~RangeOk(c, c.flat, q) ELSE FALSE} = {})
 
 TEnd == Ev.ev = "end" /\ UNCHANGED <<tables, cvars>>
 
